@@ -884,19 +884,51 @@ def run(rep, ctx):
 
     close = one(JW + "::Close", lambda f: f.unit == U)
     sw = [n for n in close.walk() if n["k"] == "SwitchStmt"]
-    if len(sw) != 1 or render(kids(sw[0])[0]) != "kind_":
-        raise AnalysisBroken("C20.Y1: Close() is not a switch over kind_")
-    secs = switch_sections(sw[0])
     want_close = {"Unset": ["[]"], "Scalar": [], "Array": ["]"], "Dict": ["}"], "Closed": []}
-    for kn, w in want_close.items():
-        sec = secs.get(kinds[kn])
-        got = writes_in(close, sec) if sec is not None else None
-        y1.check(got == w, "Close|%s" % kn, short_loc(close.loc), "Close() on a %s node writes %r" % (kn, "".join(w)),
-                 "Close() on a %s node writes %r, expected %r" % (kn, got, w))
-    ka = [n for n in close.walk() if n["k"] == "BinaryOperator" and n.get("op") == "=" and render(kids(n)[0]) == "kind_"]
-    okc = len(ka) >= 1 and any(cv(kids(n)[1]) == kinds["Closed"] and
-                               close.cfg.path_avoiding(None, "exit", [n["i"]], from_entry=True) is None for n in ka)
-    y1.check(okc, "Close|marks-closed", short_loc(close.loc), "every path through Close() sets kind_ = Closed (idempotent)")
+    if len(sw) != 1 or render(kids(sw[0])[0]) != "kind_":
+        # not a switch over kind_: Close() is run for each node kind (what it writes, which kind it leaves)
+        okc = True
+        for kn, w in want_close.items():
+            st_ = {"kind": kinds[kn], "w": []}
+
+            def atom(t_, n_, env_):
+                t_ = t_.replace("this->", "")
+                if t_ == "kind_":
+                    return st_["kind"]
+                if t_ == "n_written_":
+                    return 1
+                if n_["k"] == "CXXMemberCallExpr" and (n_.get("callee") or "").endswith("::write"):
+                    st_["w"] += writes_in(close, [n_])
+                    return 0
+                return None
+
+            def store(t_, n_, val, env_):
+                if t_.replace("this->", "") == "kind_":
+                    st_["kind"] = val
+                    return True
+                return False
+            mi = MiniInt(F, atom)
+            mi.store = store
+            try:
+                mi.call(close, [])
+            except AnalysisBroken as e_:
+                if "without a return" not in str(e_):
+                    raise AnalysisBroken("C20.Y1: Close(): %s" % e_)
+            y1.check(st_["w"] == w, "Close|%s" % kn, short_loc(close.loc), "Close() on a %s node writes %r" % (kn, "".join(w)),
+                     "Close() on a %s node writes %r, expected %r" % (kn, st_["w"], w))
+            okc = okc and st_["kind"] == kinds["Closed"]
+        y1.check(okc, "Close|marks-closed", short_loc(close.loc), "every path through Close() sets kind_ = Closed (idempotent)")
+    else:
+        secs = switch_sections(sw[0])
+        for kn, w in want_close.items():
+            sec = secs.get(kinds[kn])
+            got = writes_in(close, sec) if sec is not None else None
+            y1.check(got == w, "Close|%s" % kn, short_loc(close.loc), "Close() on a %s node writes %r" % (kn, "".join(w)),
+                     "Close() on a %s node writes %r, expected %r" % (kn, got, w))
+        ka = [n for n in close.walk() if n["k"] == "BinaryOperator" and n.get("op") == "=" and render(kids(n)[0]) == "kind_"]
+        okc = len(ka) >= 1 and any(cv(kids(n)[1]) == kinds["Closed"] and
+                                   close.cfg.path_avoiding(None, "exit", [n["i"]], from_entry=True) is None for n in ka)
+        y1.check(okc, "Close|marks-closed", short_loc(close.loc), "every path through Close() sets kind_ = Closed (idempotent)")
     dt = one(JW + "::~MiniJSONWriter", lambda f: f.unit == U)
     y1.check(any(c.get("callee") == JW + "::Close" for c in dt.walk() if c["k"] == "CXXMemberCallExpr"), "dtor-closes",
              short_loc(dt.loc), "the destructor closes the node")
